@@ -143,13 +143,41 @@ def examples_probe():
     def g(x: int): return x
     deal.cases(g, count=3, check_types=False)()
     return sorted(set(ran))
+
+def late_contracts_probe():
+    # contracts attached to a function AFTER cases were generated for it (decorating an already decorated function extends the same
+    # wrapper object): a new deal.cases(f) honours them -- the added precondition, the added raises declaration, the added example
+    bad = []
+    @deal.pre(lambda a, b: a >= 0)
+    def f(a: int, b: int) -> int: return a + b
+    list(deal.cases(f, count=5, seed=1, check_types=False))
+    f2 = deal.pre(lambda a, b: b < 10)(f)
+    for case in deal.cases(f2, count=20, seed=1, check_types=False):
+        if not (case.kwargs["a"] >= 0 and case.kwargs["b"] < 10): bad.append(["case violates a precondition added after the first generation", dict(case.kwargs)]); break
+    @deal.pre(lambda x: True)
+    def g(x: int) -> float: return 1 / x
+    list(deal.cases(g, count=3, seed=1, check_types=False))
+    g2 = deal.raises(ZeroDivisionError)(g)
+    try:
+        r = deal.cases(g2, count=1, kwargs=dict(x=0), check_types=False)
+        for case in r: case()
+    except ZeroDivisionError: bad.append(["an exception admitted by a raises contract added after the first generation propagates", "x=0"])
+    except BaseException as e: bad.append(["raises added later", type(e).__name__])
+    ran = []
+    @deal.pre(lambda x: True)
+    def h(x: int) -> int: return x
+    deal.cases(h, count=2, seed=1, check_types=False)()
+    h2 = deal.example(lambda: ran.append("late") or True)(h)
+    deal.cases(h2, count=2, seed=1, check_types=False)()
+    if ran != ["late"] and "late" not in ran: bad.append(["an example contract added after the first generation is not executed", ran])
+    return bad
 '''
 
 
 def run(ctx, fr, model_available=True):
     n = 400 if ctx.tier == 'thorough' else 60
-    r = impl.run_impl('pyexec.py', {'src': PROBE, 'calls': [['probe', [ctx.seed, n]], ['examples_probe', []]]}, timeout=1500)
-    res, ex = r
+    r = impl.run_impl('pyexec.py', {'src': PROBE, 'calls': [['probe', [ctx.seed, n]], ['examples_probe', []], ['late_contracts_probe', []]]}, timeout=1500)
+    res, ex, late = r
     if isinstance(res, dict) and 'error' in res:
         fr.errors.append('probe failed: ' + res['error']); return
     st = res['stats']
@@ -159,6 +187,10 @@ def run(ctx, fr, model_available=True):
         fr.violations.append({'scenario': {'family': 'cases-probe', 'seed': ctx.seed, 'source': b[1]}, 'impl': b[2:], 'what': b[0], 'signature': None})
     if ex != ['ex1', 'ex2']:
         fr.violations.append({'scenario': {'family': 'examples'}, 'impl': ex, 'what': f'example contracts are not executed as part of the test: ran {ex}', 'signature': None})
+    fr.evaluations += 3; fr.samples.append({'family': 'contracts attached after a first generation', 'deviations': late})
+    if late:
+        fr.violations.append({'scenario': {'family': 'late-contracts'}, 'impl': late, 'signature': None,
+                              'what': f'deal.cases does not honour a contract attached after cases were first generated for the function: {late[0] if isinstance(late, list) else late}'})
     fr.rule = RULE
     fr.samples.append({'stats': st, 'examples_ran': ex})
     fr.distribution = st
